@@ -102,7 +102,7 @@ HEADER1 = HEADER + ('Definition isnan (b : Z) : bool := (Z.land (Z.shiftr b 23) 
                     'Definition enc1 (r : pyres) : Z := match r with RInt z => z | RF32 b => if isnan b then -1 else 2^32 + b end.\n')
 
 
-def tie(ctx):
+def tie_fp16_led(ctx):
     dis = []
     nd = 0
     # ---- fp16: exhaustive, in blocks of 1024 compared by digest (differing blocks re-printed in full)
@@ -183,7 +183,7 @@ def _classify_fp16(h, got):
     return 'fp16_wrong_value'
 
 
-def oracle(ctx, deep=False):
+def oracle_fp16_led(ctx, deep=False):
     fails = []
     impl = _fp16_impl_all()
     for h in range(-32768, 65536):
@@ -224,9 +224,385 @@ def oracle(ctx, deep=False):
 
 def replay(payload, ctx):
     c = payload['case']
+    if c.get('fn') in _REPLAYERS:
+        return _REPLAYERS[c['fn']](c)
     if c.get('fn') == 'fp16_to_float':
         got, ref = _impl_fp16(c['arg']), _ref_fp16(c['arg'])
         return None if got == ref else {'expected': ref, 'observed': got}
-    fs = oracle(ctx, deep=True)['failures']
+    fs = oracle_fp16_led(ctx, deep=True)['failures']
     fs = [f for f in fs if f['case'].get('fn') == 'led']
     return fs[0] if fs else None
+
+
+# =============================================================== range reports / angle stream / trajectories
+import random as _random
+
+HEADER2 = ('From Coq Require Import Floats.PrimFloat.\nFrom CF Require Import Common.Struct C13.Model C13.Stream C13.Traj.\n'
+           'Open Scope Z_scope.\n'
+           'Definition isnan32 (b : Z) : bool := (Z.land (Z.shiftr b 23) 255 =? 255) && negb (Z.land b 8388607 =? 0).\n'
+           'Definition cn (b : Z) : Z := if isnan32 b then 2143289344 else b.\n'
+           'Definition enc_range (d : list Z) : list Z := match decode_range d with None => [-1] '
+           '| Some l => concat (map (fun p => [fst p; cn (snd p)]) l) end.\n'
+           'Definition enc_ang (a : angle) : list Z := match a with Base b => [0; cn b; 0] '
+           '| BaseMinus b (RF32 o) => [1; cn b; cn o] | BaseMinus b (RInt z) => [2; cn b; z] end.\n'
+           'Definition enc_lh (d : list Z) : list Z := match decode_lh_angle d with None => [-1] '
+           '| Some r => lh_bs r :: concat (map enc_ang (lh_x r)) ++ concat (map enc_ang (lh_y r)) end.\n'
+           'Definition enc_ob (o : option (list Z)) : list Z := match o with None => [-1] | Some l => l end.\n')
+
+QNAN = 0x7FC00000
+
+
+def _f32bits(v):
+    import math as _m
+    if _m.isnan(v):
+        return QNAN
+    return struct.unpack('<I', struct.pack('<f', v))[0]
+
+
+def _bits_f32(b):
+    return struct.unpack('<f', struct.pack('<I', b))[0]
+
+
+def _cn(b):
+    return QNAN if ((b >> 23) & 0xFF) == 0xFF and (b & 0x7FFFFF) else b
+
+
+class _FakeCf:
+    def add_port_callback(self, port, cb):
+        self.cb = cb
+
+    def send_packet(self, pk):
+        pass
+
+
+class _Pk:
+    def __init__(self, data):
+        self.data = bytes(data)
+
+
+def _impl_incoming(payload):
+    """Feed one LOCALIZATION packet payload (type byte + data) to the real Localization._incoming."""
+    from cflib.crazyflie.localization import Localization
+    cf = _FakeCf()
+    loc = Localization(cf)
+    got = []
+    loc.receivedLocationPacket.add_callback(lambda p: got.append(p))
+    try:
+        loc._incoming(_Pk(payload))
+    except Exception as e:
+        return ('raise', type(e).__name__)
+    if not got:
+        return ('dropped',)
+    return ('ok', got[0])
+
+
+SPECIAL_HALF = [0, 0x8000, 1, 0x8001, 0x03FF, 0x0400, 0x3C00, 0xBC00, 0x7BFF, 0xFBFF, 0x7C00, 0xFC00, 0x7E00, 0x7C01]
+SPECIAL_F32 = [0, 0x80000000, 0x3F800000, 0xBF800000, 0x7F800000, 0xFF800000, 0x7FC00000, 1, 0x00800000,
+               0x40490FDB, 0x3FC90FDB, 0x7F7FFFFF]
+
+
+def _gen_range(rng, n):
+    cases = []
+    for k in range(n):
+        m = rng.choice([0, 1, 2, 3, 4, 5, 5, 5])
+        ids = [rng.randrange(256) for _ in range(m)]
+        if m >= 2 and rng.random() < 0.25:
+            ids[-1] = ids[0]                      # duplicate anchor id: last assignment wins
+        data = []
+        for i in ids:
+            b = rng.choice(SPECIAL_F32) if rng.random() < 0.3 else rng.getrandbits(32)
+            data += [i] + list(struct.pack('<I', b))
+        if rng.random() < 0.15:
+            data = data + [rng.randrange(256) for _ in range(rng.randrange(1, 5))]   # bad length
+        cases.append(data)
+    return cases
+
+
+def _impl_range(data):
+    r = _impl_incoming([0] + data)
+    if r[0] != 'ok':
+        return [-1] if r[0] == 'dropped' else [-2]
+    d = r[1].data
+    return sorted([k, _f32bits(v)] for k, v in d.items())
+
+
+def _model_range_to_dict(flat):
+    if flat == [-1]:
+        return [-1]
+    d = {}
+    for i in range(0, len(flat), 2):
+        d[flat[i]] = flat[i + 1]
+    return sorted([k, v] for k, v in d.items())
+
+
+def _gen_lh(rng, n):
+    cases = []
+    for k in range(n):
+        bs = rng.randrange(256)
+        f = [rng.choice(SPECIAL_F32) if rng.random() < 0.2 else _f32bits(rng.uniform(-3.2, 3.2)) for _ in range(2)]
+        hs = [rng.choice(SPECIAL_HALF) if rng.random() < 0.35 else rng.getrandbits(16) for _ in range(6)]
+        data = [bs] + list(struct.pack('<I', f[0])) + [x for h in hs[:3] for x in (h & 255, h >> 8)] \
+            + list(struct.pack('<I', f[1])) + [x for h in hs[3:] for x in (h & 255, h >> 8)]
+        if rng.random() < 0.08:
+            data = data[:-1] if rng.random() < 0.5 else data + [0]
+        cases.append(data)
+    return cases
+
+
+def _dbl(x):
+    import math as _m
+    return 'nan' if _m.isnan(x) else x.hex()
+
+
+def _impl_lh(data):
+    r = _impl_incoming([10] + data)
+    if r[0] == 'raise':
+        return [-1]
+    if r[0] != 'ok':
+        return [-3]
+    d = r[1].data
+    return [d['basestation']] + [_dbl(float(v)) for v in d['x']] + [_dbl(float(v)) for v in d['y']]
+
+
+def _model_lh_to_values(flat):
+    """model: [bs, (kind, base, off)*8] -> [bs, double hex...] using Python float subtraction for BaseMinus"""
+    if flat == [-1]:
+        return [-1]
+    out = [flat[0]]
+    for i in range(1, len(flat), 3):
+        kind, b, o = flat[i:i + 3]
+        base = _bits_f32(b)
+        if kind == 0:
+            out.append(_dbl(base))
+        elif kind == 1:
+            out.append(_dbl(base - _bits_f32(o)))
+        else:
+            out.append(_dbl(float(base - o)))       # implementation returned an int (defect F13)
+    return out
+
+
+def _ref_lh(data):
+    """independent reference: numpy float16"""
+    import numpy as np
+    if len(data) != 21:
+        return [-1]
+    bs = data[0]
+    out = [bs]
+    for off in (1, 11):
+        base = float(np.frombuffer(bytes(data[off:off + 4]), dtype='<f4')[0])
+        hs = np.frombuffer(bytes(data[off + 4:off + 10]), dtype='<f2').astype(np.float64)
+        out.append(_dbl(base))
+        out += [_dbl(base - float(h)) for h in hs]
+    return out
+
+
+def _coq_float(x):
+    import math as _m
+    if _m.isnan(x):
+        return 'nan'
+    if _m.isinf(x):
+        return 'infinity' if x > 0 else 'neg_infinity'
+    h = x.hex()
+    return '(%s)%%float' % h
+
+
+BOUNDARY_M = [32.767, 32.768, 32.7675, 32.76799999999999, 32.7680000001, -32.768, -32.769, -32.7685, -32.76800000001,
+              0.0, -0.0, 0.0005, 0.001, 0.0009999999, -0.0009999, 1e-320, 5e-324, 1e300, -1e300, float('inf'), float('nan'),
+              40.0, -40.0, 1.2345, 0.1 + 0.2, 4.35, 0.57]
+BOUNDARY_YAW = [0.0, 3.141592653589793, -3.141592653589793, 57.1, 57.19, 57.191, -57.19, -57.192, 1e-9, 1e300,
+                float('inf'), float('nan'), 0.0017453292519943296, 1.5707963267948966]
+
+
+def _gen_start(rng, n):
+    cs = []
+    for k in range(n):
+        def coord():
+            r = rng.random()
+            if r < 0.25:
+                return rng.choice(BOUNDARY_M)
+            if r < 0.35:
+                return round(rng.uniform(-33, 33), 3)          # values that are "exact" millimetres in decimal
+            return rng.uniform(-34, 34) if r < 0.9 else rng.uniform(-1e-3, 1e-3)
+        yaw = rng.choice(BOUNDARY_YAW) if rng.random() < 0.3 else rng.uniform(-58, 58)
+        cs.append((coord(), coord(), coord(), yaw))
+    return cs
+
+
+def _impl_start(c):
+    from cflib.crazyflie.mem.trajectory_memory import CompressedStart
+    try:
+        return list(CompressedStart(*c).pack())
+    except (struct.error, OverflowError, ValueError):
+        return [-1]
+
+
+def _gen_seg(rng, n):
+    cs = []
+    for k in range(n):
+        def elem(yaw=False):
+            ln = rng.choice([0, 1, 3, 7])
+            return [(rng.uniform(-58, 58) if yaw else rng.uniform(-33.5, 33.5)) if rng.random() < 0.9
+                    else rng.choice(BOUNDARY_YAW if yaw else BOUNDARY_M) for _ in range(ln)]
+        dur = rng.choice([0.0, 65.535, 65.536, 65.5355, 1.0, 0.001, -0.001, -0.0005, 1e9]) if rng.random() < 0.3 \
+            else rng.uniform(0, 66)
+        cs.append((dur, elem(), elem(), elem(), elem(True)))
+    return cs
+
+
+def _impl_seg(c):
+    from cflib.crazyflie.mem.trajectory_memory import CompressedSegment
+    try:
+        return list(CompressedSegment(*c).pack())
+    except (struct.error, OverflowError, ValueError):
+        return [-1]
+
+
+def _coq_flist(xs):
+    return '[' + '; '.join(_coq_float(x) for x in xs) + ']'
+
+
+def tie_streams(ctx):
+    dis = []
+    rng = _random.Random(ctx.seed * 7919 + 13)
+    n = ctx.scale(400, 4000)
+    seen = set()
+    nontriv = 0
+    # range
+    rc = _gen_range(rng, n)
+    mv = coqrun.eval_terms(HEADER2, ['enc_range %s' % coqrun.zlist(d) for d in rc], tag='c13r', shard=500)
+    for d, m in zip(rc, mv):
+        a, b = _impl_range(d), _model_range_to_dict(m)
+        key = ('r', tuple(d))
+        if key not in seen:
+            seen.add(key)
+            nontriv += 1 if len(d) >= 10 else 0
+        if a != b:
+            dis.append({'what': 'range report: model and implementation differ', 'data': d, 'model': b, 'impl': a})
+    # lh angle
+    lc = _gen_lh(rng, n)
+    mv = coqrun.eval_terms(HEADER2, ['enc_lh %s' % coqrun.zlist(d) for d in lc], tag='c13l', shard=500)
+    for d, m in zip(lc, mv):
+        a, b = _impl_lh(d), _model_lh_to_values(m)
+        key = ('l', tuple(d))
+        if key not in seen:
+            seen.add(key)
+            nontriv += 1 if len(d) == 21 else 0
+        if a != b:
+            dis.append({'what': 'lh angle stream: model and implementation differ', 'data': d, 'model': b, 'impl': a})
+    # trajectory start / segment
+    sc = _gen_start(rng, n)
+    mv = coqrun.eval_terms(HEADER2, ['enc_ob (pack_start %s)' % ' '.join(_coq_float(x) for x in c) for c in sc],
+                           tag='c13s', shard=500)
+    for c, m in zip(sc, mv):
+        a = _impl_start(c)
+        nontriv += 1 if a != [-1] else 0
+        if a != m:
+            dis.append({'what': 'CompressedStart.pack: model and implementation differ', 'args': [_dbl(x) for x in c],
+                        'model': m, 'impl': a})
+    gc = _gen_seg(rng, n // 2)
+    mv = coqrun.eval_terms(HEADER2, ['enc_ob (pack_segment %s %s)' % (_coq_float(c[0]), ' '.join(_coq_flist(e) for e in c[1:]))
+                                     for c in gc], tag='c13g', shard=250)
+    for c, m in zip(gc, mv):
+        a = _impl_seg(c)
+        nontriv += 1 if a != [-1] else 0
+        if a != m:
+            dis.append({'what': 'CompressedSegment.pack: model and implementation differ',
+                        'args': [_dbl(c[0])] + [[_dbl(x) for x in e] for e in c[1:]], 'model': m, 'impl': a})
+    return {'evaluations': len(rc) + len(lc) + len(sc) + len(gc), 'distinct_nontrivial': nontriv,
+            'rule': ' | range reports (0..5 anchors, duplicate ids, special float32 patterns, bad lengths; non-trivial: >= 2 '
+                    'anchors), angle-stream packets (special half patterns +-0/subnormal/inf/nan, wrong lengths; non-trivial: '
+                    '21 bytes), CompressedStart/Segment (boundary, decimal-exact and random doubles, inf/nan; non-trivial: packs)',
+            'samples': [{'range': rc[0]}, {'lh': lc[0]}, {'start': [_dbl(x) for x in sc[0]]}],
+            'distribution': {'range': len(rc), 'lh_angle': len(lc), 'traj_start': len(sc), 'traj_segment': len(gc),
+                             'traj_start_raising': sum(1 for c in sc if _impl_start(c) == [-1])},
+            'disagreements': dis}
+
+
+def _check_start(c):
+    """property text on the real code: millimetres / tenths of a degree with < 1 unit of error, overflow raises"""
+    import math as _m
+    from fractions import Fraction
+    out = _impl_start(c)
+    vals = []
+    finite = all(_m.isfinite(x) for x in c)
+    if finite:
+        ex = [Fraction(x) * 1000 for x in c[:3]] + [Fraction(_m.degrees(c[3])) * 10]
+    if out == [-1]:
+        if finite and all(-32767 <= v <= 32767 for v in ex):
+            return {'class': 'traj_start_raises_in_range', 'case': {'fn': 'traj_start', 'args': [_dbl(x) for x in c]},
+                    'observed': 'raised', 'detail': 'all four values are inside the int16 span but pack() raised'}
+        return None
+    if not finite:
+        return {'class': 'traj_start_nonfinite_encoded', 'case': {'fn': 'traj_start', 'args': [_dbl(x) for x in c]},
+                'observed': out}
+    got = struct.unpack('<hhhh', bytes(out))
+    for g, v in zip(got, ex):
+        if not abs(g - v) < 1 + Fraction(1, 10 ** 9):
+            return {'class': 'traj_start_resolution', 'case': {'fn': 'traj_start', 'args': [_dbl(x) for x in c]},
+                    'expected': float(v), 'observed': list(got),
+                    'detail': 'encoded value differs from the exact one by a unit or more (wrap-around?)'}
+    return None
+
+
+def oracle_streams(ctx, deep=False):
+    fails = []
+    rng = _random.Random(ctx.seed * 104729 + 7)
+    n = ctx.scale(600, 6000) * (3 if deep else 1)
+    for d in _gen_lh(rng, n):
+        a, r = _impl_lh(d), _ref_lh(d)
+        if a != r:
+            cls = 'lh_angle_wrong_length_not_rejected' if len(d) != 21 else 'lh_angle_decode_wrong'
+            fails.append({'class': cls, 'case': {'fn': 'lh_angle', 'data': d}, 'expected': r, 'observed': a})
+    for d in _gen_range(rng, n):
+        a = _impl_range(d)
+        if len(d) % 5:
+            exp = [-1]
+        else:
+            dd = {}
+            for i in range(0, len(d), 5):
+                dd[d[i]] = _cn(struct.unpack('<I', bytes(d[i + 1:i + 5]))[0])
+            exp = sorted([k, v] for k, v in dd.items())
+        if a != exp:
+            fails.append({'class': 'range_decode_wrong', 'case': {'fn': 'range', 'data': d}, 'expected': exp, 'observed': a})
+    for c in _gen_start(rng, n):
+        f = _check_start(c)
+        if f:
+            fails.append(f)
+    return {'evaluations': 3 * n, 'failures': fails,
+            'rule': 'angle stream vs numpy.float16 reference; range reports vs struct reference; CompressedStart vs exact '
+                    'rational millimetres / decidegrees (< 1 unit, overflow raises)'}
+
+
+def _replay_lh(c):
+    a, r = _impl_lh(c['data']), _ref_lh(c['data'])
+    return None if a == r else {'expected': r, 'observed': a}
+
+
+def _replay_start(c):
+    return _check_start(tuple(float('nan') if x == 'nan' else float.fromhex(x) for x in c['args']))
+
+
+_REPLAYERS = {'lh_angle': _replay_lh, 'traj_start': _replay_start}
+
+
+def _merge(a, b):
+    out = dict(a)
+    for k in ('evaluations', 'distinct_nontrivial'):
+        out[k] = a.get(k, 0) + b.get(k, 0)
+    out['rule'] = a.get('rule', '') + b.get('rule', '')
+    out['samples'] = a.get('samples', []) + b.get('samples', [])
+    out['distribution'] = dict(a.get('distribution', {}), **b.get('distribution', {}))
+    out['disagreements'] = a.get('disagreements', []) + b.get('disagreements', [])
+    out['failures'] = a.get('failures', []) + b.get('failures', [])
+    out['exhaustive'] = False
+    return out
+
+
+def tie(ctx):
+    r = _merge(tie_fp16_led(ctx), tie_streams(ctx))
+    r['exhaustive_parts'] = ['fp16 (all patterns)', 'LED level x intensity per channel']
+    return r
+
+
+def oracle(ctx, deep=False):
+    return _merge(oracle_fp16_led(ctx, deep), oracle_streams(ctx, deep))
